@@ -794,8 +794,16 @@ class Bridge(wiring.Component):
         m = Module()
 
         m.submodules.mux = self._mux
+        # Distinct register names can flatten to the same submodule name (e.g. a register named
+        # "mux", or `("0", "x")` next to `(0, "x")`). Such registers are added anonymously.
+        submodule_names = {"mux"}
         for reg, reg_name, _ in self.bus.memory_map.resources():
-            m.submodules["__".join(str(part) for part in reg_name)] = reg
+            submodule_name = "__".join(str(part) for part in reg_name)
+            if submodule_name in submodule_names:
+                m.submodules += reg
+            else:
+                submodule_names.add(submodule_name)
+                m.submodules[submodule_name] = reg
 
         connect(m, flipped(self.bus), self._mux.bus)
 
